@@ -33,6 +33,9 @@ namespace Kanidm.Filter
 /-- `get_idl`. -/
 abbrev Idx := Nat → IType → Val → Option (List Nat)
 
+/-- the stored representation of the id set of a table row (`IDLBitRange::is_compressed`) -/
+abbrev Rep := Nat → IType → Val → Bool
+
 /-- the key of the presence index: `"_"` -/
 def presKey : Val := .str [95]
 
@@ -62,31 +65,35 @@ def subKeysOf : Val → List (List Nat)
   | .num _ => []
 
 /-- the `for idx_key in grapheme_iter` loop of `filter2idl_sub` (l.645–664) -/
-def subLoop (get : List Nat → Option (List Nat)) : List Nat → List (List Nat) → List Nat
+def subLoop (get : List Nat → Option (List Nat × Bool)) :
+    List Nat × Bool → List (List Nat) → List Nat × Bool
   | idl, [] => idl
   | idl, k :: ks =>
     let idl' := match get k with
-      | some r => interL r idl
-      | none => []
-    if idl'.length < thresSubstr then idl' else subLoop get idl' ks
+      | some r => (interL r.1 idl.1, r.2 && idl.2 && !(interL r.1 idl.1).isEmpty)
+      | none => ([], false)
+    if idl'.1.length < thresSubstr then idl' else subLoop get idl' ks
 
 /-- `filter2idl_sub` (l.613). -/
-def idlSub (idx : Idx) (a : Nat) (key : List Nat) : IdList :=
+def idlSub (idx : Idx) (rep : Rep) (a : Nat) (key : List Nat) : IdList :=
   match trigraphs key with
-  | [] => ⟨.idxd, []⟩
+  | [] => ⟨.idxd, [], false⟩
   | k :: ks =>
     match idx a .substring (.str k) with
-    | none => ⟨.allIds, []⟩
+    | none => ⟨.allIds, [], false⟩
     | some idl =>
       if idl.length > thresSubstr then
-        ⟨.part, subLoop (fun k => idx a .substring (.str k)) idl ks⟩
-      else ⟨.part, idl⟩
+        let r := subLoop (fun k => (idx a .substring (.str k)).map (fun s => (s, rep a .substring (.str k))))
+          (idl, rep a .substring (.str k)) ks
+        ⟨.part, r.1, r.2⟩
+      else ⟨.part, idl, rep a .substring (.str k)⟩
 
 /-! ### the OR fold, the AND candidate algebra, Inclusion -/
 
 /-- loop state of the `Or` arm: `result`, `partial`, `threshold` -/
 structure OrAcc where
   result : List Nat
+  comp : Bool
   part : Bool
   thres : Bool
 
@@ -94,12 +101,13 @@ structure OrAcc where
 def orLoop : OrAcc → List IdList → IdList
   | acc, [] =>
     if acc.part then
-      if acc.thres then ⟨.thres, acc.result⟩ else ⟨.part, acc.result⟩
-    else ⟨.idxd, acc.result⟩
+      if acc.thres then ⟨.thres, acc.result, acc.comp⟩ else ⟨.part, acc.result, acc.comp⟩
+    else ⟨.idxd, acc.result, acc.comp⟩
   | acc, i :: is =>
     match orArm i.kind with
-    | none => ⟨.allIds, []⟩
-    | some (p, t) => orLoop ⟨unionL acc.result i.ids, acc.part || p, acc.thres || t⟩ is
+    | none => ⟨.allIds, [], false⟩
+    | some (p, t) =>
+      orLoop ⟨unionL acc.result i.ids, acc.comp || i.comp, acc.part || p, acc.thres || t⟩ is
 
 /-- outcome of one loop iteration of the `And` arm: early `return` or next candidate -/
 inductive Step where
@@ -109,17 +117,17 @@ inductive Step where
 /-- one arm of a `(cand_idl, inter)` table, with `f_rem_count = rem` -/
 def applyArm (arm : Arm) (thres rem : Nat) (c i : IdList) : Step :=
   let r := arm.op.apply c i
-  if arm.thresRet && decide (r.length < thres) && decide (rem > 0) then .ret ⟨.thres, r⟩
-  else if arm.emptyRet && r.isEmpty then .ret ⟨.idxd, []⟩
-  else .cont ⟨arm.out, r⟩
+  if arm.thresRet && belowThreshold r.1 r.2 thres && decide (rem > 0) then .ret ⟨.thres, r.1, r.2⟩
+  else if arm.emptyRet && r.1.isEmpty then .ret ⟨.idxd, [], false⟩
+  else .cont ⟨arm.out, r.1, r.2⟩
 
 /-- the check on the first candidate (l.390–406) -/
 def firstCheck (thres rem : Nat) (c : IdList) : Step :=
   match c.kind with
   | .allIds => .cont c
   | _ =>
-    if decide (c.ids.length < thres) && decide (rem > 0) then .ret ⟨.thres, c.ids⟩
-    else if c.ids.isEmpty then .ret ⟨.idxd, []⟩
+    if belowThreshold c.ids c.comp thres && decide (rem > 0) then .ret ⟨.thres, c.ids, c.comp⟩
+    else if c.ids.isEmpty then .ret ⟨.idxd, [], false⟩
     else .cont c
 
 /-- `for f in f_rem_iter` (l.409–465) -/
@@ -134,7 +142,7 @@ def andPosLoop (thres : Nat) : IdList → Nat → List IdList → Step × Nat
 /-- `let inter = match inter { Partial(_) => Partial(∅), PartialThreshold(_) => … }` (l.482) -/
 def notPre (i : IdList) : IdList :=
   match notPreKind i.kind with
-  | some k => ⟨k, []⟩
+  | some k => ⟨k, [], false⟩
   | none => i
 
 /-- `for f in f_andnot.iter()` (l.469–543) -/
@@ -151,7 +159,7 @@ def andNegLoop (thres : Nat) : IdList → Nat → List IdList → IdList
 inner filters of the `AndNot` terms (`f_andnot`, in order) -/
 def andCombine (thres : Nat) (pos neg : List IdList) : IdList :=
   match pos with
-  | [] => ⟨.idxd, []⟩
+  | [] => ⟨.idxd, [], false⟩
   | c :: ps =>
     let rem := (c :: ps).length + neg.length - 1
     match firstCheck thres rem c with
@@ -162,73 +170,74 @@ def andCombine (thres : Nat) (pos neg : List IdList) : IdList :=
       | (.cont c, rem) => andNegLoop thres c rem neg
 
 /-- the `Inclusion` arm (l.558–595) -/
-def incLoop : List Nat → List IdList → IdList
-  | res, [] => ⟨.idxd, res⟩
+def incLoop : List Nat × Bool → List IdList → IdList
+  | res, [] => ⟨.idxd, res.1, res.2⟩
   | res, i :: is =>
     match i.kind with
-    | .idxd => if i.ids.isEmpty then ⟨.idxd, []⟩ else incLoop (unionL res i.ids) is
-    | _ => ⟨.part, []⟩
+    | .idxd =>
+      if i.ids.isEmpty then ⟨.idxd, [], false⟩ else incLoop (unionL res.1 i.ids, res.2 || i.comp) is
+    | _ => ⟨.part, [], false⟩
 
 /-! ### `filter2idl` -/
 
 /-- the `Eq` arm (l.246) -/
-def idlEq (idx : Idx) (a : Nat) (v : Val) (s : Option Nat) : IdList :=
+def idlEq (idx : Idx) (rep : Rep) (a : Nat) (v : Val) (s : Option Nat) : IdList :=
   if s.isSome then
     match idx a .equality v with
-    | some l => ⟨.idxd, l⟩
-    | none => ⟨.allIds, []⟩
-  else ⟨.allIds, []⟩
+    | some l => ⟨.idxd, l, rep a .equality v⟩
+    | none => ⟨.allIds, [], false⟩
+  else ⟨.allIds, [], false⟩
 
 /-- the `Stw | Enw | Cnt` arm (l.266) -/
-def idlSubTerm (idx : Idx) (a : Nat) (v : Val) (s : Option Nat) : IdList :=
+def idlSubTerm (idx : Idx) (rep : Rep) (a : Nat) (v : Val) (s : Option Nat) : IdList :=
   match s.isSome, subKey v with
-  | true, some key => idlSub idx a key
-  | _, _ => ⟨.allIds, []⟩
+  | true, some key => idlSub idx rep a key
+  | _, _ => ⟨.allIds, [], false⟩
 
 /-- the `Pres` arm (l.278) -/
-def idlPres (idx : Idx) (a : Nat) (s : Option Nat) : IdList :=
+def idlPres (idx : Idx) (rep : Rep) (a : Nat) (s : Option Nat) : IdList :=
   if s.isSome then
     match idx a .presence presKey with
-    | some l => ⟨.idxd, l⟩
-    | none => ⟨.allIds, []⟩
-  else ⟨.allIds, []⟩
+    | some l => ⟨.idxd, l, rep a .presence presKey⟩
+    | none => ⟨.allIds, [], false⟩
+  else ⟨.allIds, [], false⟩
 
 /-- the `LessThan` arm (l.290): the *presence* index, as a `Partial` set -/
-def idlLt (idx : Idx) (a : Nat) (s : Option Nat) : IdList :=
+def idlLt (idx : Idx) (rep : Rep) (a : Nat) (s : Option Nat) : IdList :=
   if s.isSome then
     match idx a .presence presKey with
-    | some l => ⟨.part, l⟩
-    | none => ⟨.allIds, []⟩
-  else ⟨.allIds, []⟩
+    | some l => ⟨.part, l, rep a .presence presKey⟩
+    | none => ⟨.allIds, [], false⟩
+  else ⟨.allIds, [], false⟩
 
 mutual
 /-- `filter2idl` (l.240). -/
-def F.idl (idx : Idx) (thres : Nat) : F → IdList
-  | .eq a v s => idlEq idx a v s
-  | .cnt a v s => idlSubTerm idx a v s
-  | .stw a v s => idlSubTerm idx a v s
-  | .enw a v s => idlSubTerm idx a v s
-  | .pres a s => idlPres idx a s
-  | .lessThan a _ s => idlLt idx a s
-  | .or l _ => orLoop ⟨[], false, false⟩ (F.idlAll idx thres l)
-  | .and l _ => andCombine thres (F.idlPos idx thres l) (F.idlNeg idx thres l)
-  | .invalid _ => ⟨.idxd, []⟩
-  | .inclusion l _ => incLoop [] (F.idlAll idx thres l)
-  | .andnot _ _ => ⟨.idxd, []⟩
+def F.idl (idx : Idx) (rep : Rep) (thres : Nat) : F → IdList
+  | .eq a v s => idlEq idx rep a v s
+  | .cnt a v s => idlSubTerm idx rep a v s
+  | .stw a v s => idlSubTerm idx rep a v s
+  | .enw a v s => idlSubTerm idx rep a v s
+  | .pres a s => idlPres idx rep a s
+  | .lessThan a _ s => idlLt idx rep a s
+  | .or l _ => orLoop ⟨[], false, false, false⟩ (F.idlAll idx rep thres l)
+  | .and l _ => andCombine thres (F.idlPos idx rep thres l) (F.idlNeg idx rep thres l)
+  | .invalid _ => ⟨.idxd, [], false⟩
+  | .inclusion l _ => incLoop ([], false) (F.idlAll idx rep thres l)
+  | .andnot _ _ => ⟨.idxd, [], false⟩
 /-- the id lists of all children, in order -/
-def F.idlAll (idx : Idx) (thres : Nat) : List F → List IdList
+def F.idlAll (idx : Idx) (rep : Rep) (thres : Nat) : List F → List IdList
   | [] => []
-  | f :: fs => f.idl idx thres :: F.idlAll idx thres fs
+  | f :: fs => f.idl idx rep thres :: F.idlAll idx rep thres fs
 /-- `f_rem`: the id lists of the children that are not `AndNot`, in order -/
-def F.idlPos (idx : Idx) (thres : Nat) : List F → List IdList
+def F.idlPos (idx : Idx) (rep : Rep) (thres : Nat) : List F → List IdList
   | [] => []
-  | .andnot _ _ :: fs => F.idlPos idx thres fs
-  | f :: fs => f.idl idx thres :: F.idlPos idx thres fs
+  | .andnot _ _ :: fs => F.idlPos idx rep thres fs
+  | f :: fs => f.idl idx rep thres :: F.idlPos idx rep thres fs
 /-- `f_andnot`: the id lists of the inner filters of the `AndNot` children, in order -/
-def F.idlNeg (idx : Idx) (thres : Nat) : List F → List IdList
+def F.idlNeg (idx : Idx) (rep : Rep) (thres : Nat) : List F → List IdList
   | [] => []
-  | .andnot g _ :: fs => g.idl idx thres :: F.idlNeg idx thres fs
-  | _ :: fs => F.idlNeg idx thres fs
+  | .andnot g _ :: fs => g.idl idx rep thres :: F.idlNeg idx rep thres fs
+  | _ :: fs => F.idlNeg idx rep thres fs
 end
 
 /-! ### `search` and `exists` -/
@@ -259,14 +268,14 @@ def getIdentry (w : World) (i : IdList) : List Nat :=
 def searchLimitOk (lim : Limits) (i : IdList) : Bool :=
   match i.kind with
   | .allIds => lim.unindexedAllow
-  | .part => decide (i.ids.length < lim.maxFilterTest)
+  | .part => belowThreshold i.ids i.comp lim.maxFilterTest
   | .thres => true
-  | .idxd => decide (i.ids.length < lim.maxResults)
+  | .idxd => belowThreshold i.ids i.comp lim.maxResults
 
 /-- `search` (l.677) with an explicit threshold -/
-def searchT (thres : Nat) (S : ValSem) (lim : Limits) (w : World) (idx : Idx) (f : F) :
+def searchT (thres : Nat) (S : ValSem) (lim : Limits) (w : World) (idx : Idx) (rep : Rep) (f : F) :
     Except SErr (List Nat) :=
-  let i := f.idl idx thres
+  let i := f.idl idx rep thres
   if !searchLimitOk lim i then .error .resourceLimit else
   let ents := getIdentry w i
   let filtered :=
@@ -274,29 +283,31 @@ def searchT (thres : Nat) (S : ValSem) (lim : Limits) (w : World) (idx : Idx) (f
   if filtered.length > lim.maxResults then .error .resourceLimit else .ok filtered
 
 /-- `search` (l.677): `filter2idl(filt, FILTER_SEARCH_TEST_THRESHOLD)` -/
-def search (S : ValSem) (lim : Limits) (w : World) (idx : Idx) (f : F) : Except SErr (List Nat) :=
-  searchT thresSearch S lim w idx f
+def search (S : ValSem) (lim : Limits) (w : World) (idx : Idx) (rep : Rep) (f : F) :
+    Except SErr (List Nat) :=
+  searchT thresSearch S lim w idx rep f
 
 /-- the first `match &idl` of `exists` (l.789–809) -/
 def existsLimitOk (lim : Limits) (i : IdList) : Bool :=
   match i.kind with
   | .allIds => lim.unindexedAllow
-  | .part => decide (i.ids.length < lim.maxFilterTest)
+  | .part => belowThreshold i.ids i.comp lim.maxFilterTest
   | .thres => true
   | .idxd => true
 
 /-- `exists` (l.774) with an explicit threshold -/
-def existsT (thres : Nat) (S : ValSem) (lim : Limits) (w : World) (idx : Idx) (f : F) :
+def existsT (thres : Nat) (S : ValSem) (lim : Limits) (w : World) (idx : Idx) (rep : Rep) (f : F) :
     Except SErr Bool :=
-  let i := f.idl idx thres
+  let i := f.idl idx rep thres
   if !existsLimitOk lim i then .error .resourceLimit else
   if existsRetest i.kind then
     .ok (!((getIdentry w i).filter (fun id => f.matches S (w.ent id))).isEmpty)
   else .ok (!i.ids.isEmpty)
 
 /-- `exists` (l.774): `filter2idl(filt, FILTER_EXISTS_TEST_THRESHOLD)` -/
-def «exists» (S : ValSem) (lim : Limits) (w : World) (idx : Idx) (f : F) : Except SErr Bool :=
-  existsT thresExists S lim w idx f
+def «exists» (S : ValSem) (lim : Limits) (w : World) (idx : Idx) (rep : Rep) (f : F) :
+    Except SErr Bool :=
+  existsT thresExists S lim w idx rep f
 
 /-! ### which filters the exactness theorem covers -/
 
